@@ -176,7 +176,7 @@ func formatCase(c *h.Case) {
 	if g.r.Intn(2) == 0 {
 		defaultsViaFiles(c, g, cdoc, sdoc, texts)
 	}
-	if cdoc != nil && g.r.Intn(4) == 0 {
+	if cdoc != nil && g.r.Intn(3) == 0 {
 		includesViaFiles(c, g, cdoc)
 	}
 	if c.Idx == 0 {
@@ -396,10 +396,11 @@ func pickUnknown(g *gen, valid map[string]bool) string {
 	return "zzUnknown"
 }
 
-// includesViaFiles: the proxies of one logical configuration split over a main file and included files
-// written in other formats load like the single document.
+// includesViaFiles: the proxies and visitors of one logical configuration split over a main file and
+// included files written in other formats load like the single document; an unknown field placed in an
+// included file is refused in strict mode and ignored in non-strict mode, like in the main file.
 func includesViaFiles(c *h.Case, g *gen, cdoc *clientDoc) {
-	if len(cdoc.Proxies) < 2 {
+	if len(cdoc.Proxies)+len(cdoc.Visitors) == 0 {
 		return
 	}
 	dir := filepath.Join(h.RunDir(prop), "cfg", fmt.Sprintf("inc-%d-%d", c.Idx, os.Getpid()))
@@ -408,35 +409,69 @@ func includesViaFiles(c *h.Case, g *gen, cdoc *clientDoc) {
 		return
 	}
 	defer os.RemoveAll(dir)
-	k := 1 + g.r.Intn(len(cdoc.Proxies)-1)
-	mainTree := cloneTree(cdoc.Tree).(*obj)
-	var mainList, incList []any
-	for i, p := range cdoc.Proxies {
-		if i < k {
-			mainList = append(mainList, p.Tree)
+	// the tail of the proxy list and the tail of the visitor list move to included files (the loader
+	// appends included definitions after the main file's, so the order of the single document is kept)
+	nMainP, nMainV := g.r.Intn(len(cdoc.Proxies)+1), g.r.Intn(len(cdoc.Visitors)+1)
+	if nMainP == len(cdoc.Proxies) && nMainV == len(cdoc.Visitors) {
+		if nMainP > 0 {
+			nMainP--
 		} else {
-			incList = append(incList, p.Tree)
+			nMainV--
 		}
 	}
-	mainTree.set("proxies", mainList)
+	mainTree := cloneTree(cdoc.Tree).(*obj)
+	var mainP, incP, mainV, incV []any
+	for i, p := range cdoc.Proxies {
+		if i < nMainP {
+			mainP = append(mainP, p.Tree)
+		} else {
+			incP = append(incP, p.Tree)
+		}
+	}
+	for i, v := range cdoc.Visitors {
+		if i < nMainV {
+			mainV = append(mainV, v.Tree)
+		} else {
+			incV = append(incV, v.Tree)
+		}
+	}
+	setList := func(o *obj, k string, l []any) {
+		if len(l) > 0 {
+			o.set(k, l)
+		} else {
+			o.del(k)
+		}
+	}
+	setList(mainTree, "proxies", mainP)
+	setList(mainTree, "visitors", mainV)
 	glob := filepath.Join(dir, "inc-*")
 	mainTree.set("includes", []any{glob})
 	// one or two included files (directory order = name order), each in its own format
-	parts := [][]any{incList}
-	if len(incList) > 1 && g.r.Intn(2) == 0 {
-		m := 1 + g.r.Intn(len(incList)-1)
-		parts = [][]any{incList[:m], incList[m:]}
+	type incFile struct {
+		path, format string
+		tree         *obj
+	}
+	var files []*incFile
+	parts := [][]any{incP}
+	if len(incP) > 1 && g.r.Intn(2) == 0 {
+		m := 1 + g.r.Intn(len(incP)-1)
+		parts = [][]any{incP[:m], incP[m:]}
 	}
 	var used []string
 	for i, part := range parts {
 		f := formats[g.r.Intn(3)]
 		used = append(used, f)
 		o := &obj{}
-		o.set("proxies", part)
+		setList(o, "proxies", part)
+		if i == len(parts)-1 {
+			setList(o, "visitors", incV)
+		}
 		if g.r.Intn(3) == 0 {
 			o.set("serverAddr", "ignored.example") // common settings of an included file are not used
 		}
-		if err := os.WriteFile(filepath.Join(dir, fmt.Sprintf("inc-%d.%s", i+1, f)), []byte(render(f, o, g.r)), 0o644); err != nil {
+		fl := &incFile{filepath.Join(dir, fmt.Sprintf("inc-%d.%s", i+1, f)), f, o}
+		files = append(files, fl)
+		if err := os.WriteFile(fl.path, []byte(render(f, o, g.r)), 0o644); err != nil {
 			run.Inconclusive("cannot write configuration file")
 			return
 		}
@@ -448,23 +483,69 @@ func includesViaFiles(c *h.Case, g *gen, cdoc *clientDoc) {
 		run.Inconclusive("cannot write configuration file")
 		return
 	}
-	common, proxies, visitors, _, err := config.LoadClientConfig(mp, g.r.Intn(2) == 0)
+	withInc := *cdoc
+	withInc.Common.IncludeConfigFiles = []string{glob}
+	compare := func(strict bool) (err error, d []string) {
+		common, proxies, visitors, _, err := config.LoadClientConfig(mp, strict)
+		if err != nil {
+			return err, nil
+		}
+		wc, wp, wv := modelCompleteClient(&withInc)
+		d = append(d, diffValues(wc, common)...)
+		d = append(d, diffValues(wp, proxies)...)
+		d = append(d, diffValues(wv, visitors)...)
+		return nil, d
+	}
+	err, d := compare(g.r.Intn(2) == 0)
 	if err != nil {
 		c.Ev("doc", "format", mf, "text", text)
 		c.Violation("file-loader-rejects-clean-document-"+mf, "LoadClientConfig on a clean %s document with includes (%v): %v\n%s", mf, used, err, short(text))
 		return
 	}
-	withInc := *cdoc
-	withInc.Common.IncludeConfigFiles = []string{glob}
-	wc, wp, wv := modelCompleteClient(&withInc)
-	var d []string
-	d = append(d, diffValues(wc, common)...)
-	d = append(d, diffValues(wp, proxies)...)
-	d = append(d, diffValues(wv, visitors)...)
 	run.Count("include_loads", 1)
 	run.Distinct("inc|" + mf + "|" + strings.Join(used, ",") + "|" + treeHash(cdoc.Tree)[:8])
 	if len(d) > 0 {
 		c.Ev("doc", "format", mf, "text", text)
 		c.Violation("includes-"+pathKey(d[0]), "configuration split over a %s file and included %v files loads differently from the single document (expected != loaded): %s", mf, used, strings.Join(d, "; "))
+		return
+	}
+	// unknown fields inside an included file: every nesting level, every format, both strict modes
+	for k := 0; k < 3; k++ {
+		fl := files[g.r.Intn(len(files))]
+		var sites []site
+		walkSites(fl.tree, "included", "", chClient, &sites)
+		if len(sites) == 0 {
+			continue
+		}
+		st := sites[g.r.Intn(len(sites))]
+		name := pickUnknown(g, st.valid)
+		val := []any{"x", int64(1), true, &obj{kvs: []kv{{"a", int64(1)}}}, []any{"a"}}[g.r.Intn(5)]
+		st.o.set(name, val)
+		itext := render(fl.format, fl.tree, g.r)
+		st.o.del(name)
+		if err := os.WriteFile(fl.path, []byte(itext), 0o644); err != nil {
+			run.Inconclusive("cannot write configuration file")
+			return
+		}
+		sig := coarse(st.sig)
+		run.Count("unknown_field_injections_in_included_files", 1)
+		run.Distinct("incinj|" + st.sig + "|" + fl.format + "|" + name)
+		levelSeen(st.sig, fl.format)
+		if err, _ := compare(true); err == nil {
+			c.Ev("doc", "format", fl.format, "included", itext, "main", text)
+			c.Violation("strict-accepts-unknown-field-in-included-file-at-"+sig, "strict mode accepts the unknown field %q at level %s of an included %s file (main file: %s):\n%s", name, st.sig, fl.format, mf, short(itext))
+		}
+		if err, d := compare(false); err != nil {
+			c.Ev("doc", "format", fl.format, "included", itext, "main", text)
+			c.Violation("nonstrict-rejects-unknown-field-in-included-file-at-"+sig, "non-strict mode rejects the unknown field %q at level %s of an included %s file: %v", name, st.sig, fl.format, err)
+		} else if len(d) > 0 {
+			c.Ev("doc", "format", fl.format, "included", itext, "main", text)
+			c.Violation("nonstrict-unknown-field-in-included-file-changes-result-at-"+sig, "an unknown field %q at level %s of an included %s file (non-strict) changes the loaded result: %s", name, st.sig, fl.format, strings.Join(d, "; "))
+		}
+		// restore the clean included file
+		if err := os.WriteFile(fl.path, []byte(render(fl.format, fl.tree, g.r)), 0o644); err != nil {
+			run.Inconclusive("cannot write configuration file")
+			return
+		}
 	}
 }
